@@ -1,8 +1,17 @@
-import Lean.Data.Json
-/- stub: the C03 driver is not built yet -/
+import Glom.Driver.InterpRun
 namespace Glom.C03.Driver
-open Lean
+open Lean Glom.Interp Glom.Interp.Codec Glom.Interp.Run
 
-def run (_j : Json) : Except String Json := .error "property C03: driver not implemented yet"
+def run (j : Json) : Except String Json := do
+  let c ← decode j
+  let (mres, mlog) := runModel c
+  if outOfDomain mres then
+    return Json.mkObj [("skip", true), ("why", "outside the modelled domain")]
+  let mlogJ := mlog.map evToJson
+  let logAgree := (Json.arr mlogJ.toArray).compress == (Json.arr c.implLog.toArray).compress
+  let agree := resEq mres c.implRes && logAgree
+  return Json.mkObj [("agree", agree), ("holds", agree),
+    ("model", Json.mkObj [("res", resToJson mres), ("log", Json.arr mlogJ.toArray)]),
+    ("branch", match mres with | .ok _ => "ok" | .error e => s!"err-{e}")]
 
 end Glom.C03.Driver
